@@ -53,6 +53,20 @@ def shards(tier, seed):
     return [{"seed": seed * 1000 + i, "n": 100} for i in range(32)]
 
 
+def gen_ud(rng, acc):
+    """user-defined value; a third of them begin with bytes that read as text right
+    after the message header (ASCII digits, dots, colons), which is where a header
+    parser that is too greedy goes wrong"""
+    r = rng.random()
+    if r < 0.7:
+        return rng.randbytes(32).hex()
+    acc.count("ud_values_continuing_the_header")
+    n = rng.randint(1, 6)
+    head = bytes(rng.choice(b"0123456789.:") for _ in range(n)) if r < 0.9 else \
+        bytes(rng.choice(b"0123456789") for _ in range(n))
+    return (head + rng.randbytes(32 - n)).hex()
+
+
 def flipper(rng, lo=0, hi=None):
     def f(b):
         b = bytearray(b)
@@ -102,7 +116,7 @@ def ledger_run(acc, cseed, alter, tmpdir):
                        signer_framing=framing, alter=hooks)
     dev = gd.dev
     pin = "Abcd1234"
-    ud = rng.randbytes(32).hex()
+    ud = gen_ud(rng, acc)
     setup = os.path.join(tmpdir, "setup.json")
     final = os.path.join(tmpdir, "att.json")
     pkout = os.path.join(tmpdir, "pk.txt")
@@ -260,7 +274,7 @@ def sgx_run(acc, cseed, alter, tmpdir):
                     include_root=include_root)
     dev = gd.dev
     pin = dev.pin.decode()
-    ud = rng.randbytes(32).hex()
+    ud = gen_ud(rng, acc)
     final = os.path.join(tmpdir, "sgxatt.json")
     pkout = os.path.join(tmpdir, "sgxpk.txt")
     pkjson = os.path.join(tmpdir, "sgxpk.json")
